@@ -38,6 +38,8 @@ pub fn env_of(hash_seed: u64, fake_time: Option<u64>) -> Vec<(String, String)> {
         e.push(("USER".to_string(), format!("usuario{}", hash_seed % 7)));
         e.push(("HOME".to_string(), format!("/home/usuario{}", hash_seed % 7)));
         e.push(("RUST_LOG".to_string(), ["", "error", "debug", "trace"][((hash_seed / 16) % 4) as usize].to_string()));
+        // proc.slow_clock: 0 = real clock; else every monotonic read is 1 ms / 2 s / 1 h later
+        e.push(("VERIF_MONO_STEP_NS".to_string(), ["0", "1000000", "2000000000", "3600000000000"][((hash_seed / 64) % 4) as usize].to_string()));
     }
     if let Some(t) = fake_time {
         e.push(("VERIF_FAKE_TIME".to_string(), t.to_string()));
@@ -69,8 +71,8 @@ pub fn run_proc_jobs_t(jobs: &[(Value, Vec<(String, String)>)], scratch: &Path, 
     let res = orch::run_chunks(chunks, &opts, scratch);
     (0..jobs.len())
         .map(|i| {
-            res.get(&i).cloned().unwrap_or(Outcome::Abort {
-                status: "job lost".into(),
+            res.get(&i).cloned().unwrap_or_else(|| Outcome::Abort {
+                status: { crate::orch::note_harness_error("job lost by the orchestrator"); "job lost".into() },
                 stderr_tail: String::new(),
             })
         })
@@ -410,7 +412,11 @@ pub fn run(tier: &str, seed: u64, replay: Option<String>) -> i32 {
         conv_ops.push(json!({"op":"convert_dir","project":rel,"extra":false}));
         conv_ops.push(json!({"op":"convert_dir","project":rel,"extra":true}));
     }
-    let files = corpus::load(&[FileKind::Ctehexml, FileKind::Cte]);
+    let mut files = corpus::load(&[FileKind::Ctehexml, FileKind::Cte]);
+    // projects printed by the generator join every pool below (repeat / fresh process / threads /
+    // revised copies / unrelated definitions)
+    let gen_base = rng.next_u64() % 1_000_000;
+    files.extend(corpus::generated((0..if thorough { 24 } else { 6 }).map(|k| gen_base + k)));
     for f in &files {
         conv_ops.push(json!({"op":"convert_text","file":f.rel}));
     }
@@ -720,6 +726,9 @@ pub fn run(tier: &str, seed: u64, replay: Option<String>) -> i32 {
                 }
                 _ => {}
             }
+        }
+        if c.env.iter().any(|(k, v)| k == "VERIF_MONO_STEP_NS" && v != "0") {
+            *fired.entry("proc.slow_clock".into()).or_insert(0) += 1;
         }
         for (key, detail, _) in judge(c, o, &refs) {
             let size = ops_of(&c.job).len() + 10 * c.job["threads"].as_array().map(|a| a.len()).unwrap_or(1);
